@@ -18,6 +18,7 @@ EXPLANATION = (
     "the same function. [ENDIAN] _call_decode_function converts with 'big'. UNDECIDED: library text parsing on exotic tokens (strptime, "
     "int(x,16) on malformed input), equality of frame-wise and pre-assembled delivery (needs C04's reassembly)."
     ' Fifth round: [ENDIAN] is decided on the interpreted decode path: eight symbolic wire bytes handed to _decode last byte first must reach the generated decoder as the integer with wire byte j at bits 8j..8j+7, whatever conversion is used; the reading of int.from_bytes only confirms.'
+    ' Eighth round: [FE-FUNNEL] a further public decode_* method that goes through _decode is no finding (its own parsing has no reference and is not judged); the inner stages may still be called only from _decode / _decode_fast_message.'
 )
 ASSUMPTIONS = ["CPython ast parser", "absint.py / bitprov.py transfer functions", "str.split / int(x,16) / bytes.fromhex semantics on well-formed tokens"]
 
